@@ -1457,6 +1457,10 @@ class NodeLiteral:
         self.pos = pos
 
     def evaluate(self, environment):
+        if isinstance(self.value, ValueString):
+            # strings can be changed in place by element assignment:
+            # never hand out the literal stored in the program itself
+            return ValueString(self.value.value)
         return self.value
 
     def __repr__(self):
